@@ -103,8 +103,18 @@ func registerIntrinsics(e *Engine) {
 		}
 		return nil
 	}
+	// sync.Pool hands back the most recently returned object (what the runtime
+	// does for a goroutine that stays on its P): code that keeps using a buffer
+	// after putting it back shows up as aliasing.
 	in["(*sync.Pool).Get"] = func(fr *frame, args []value) value {
 		p := args[0].(*value)
+		if fr.r.pools != nil {
+			if st := fr.r.pools[p]; len(st) > 0 {
+				v := st[len(st)-1]
+				fr.r.pools[p] = st[:len(st)-1]
+				return v
+			}
+		}
 		st := (*p).(structure)
 		// field "New" is the last field of sync.Pool
 		newFn := st[len(st)-1]
@@ -116,7 +126,16 @@ func registerIntrinsics(e *Engine) {
 		}
 		return fr.r.call(fr, token.NoPos, newFn, nil)
 	}
-	in["(*sync.Pool).Put"] = nop
+	in["(*sync.Pool).Put"] = func(fr *frame, args []value) value {
+		p := args[0].(*value)
+		if fr.r.pools == nil {
+			fr.r.pools = map[*value][]value{}
+		}
+		if len(fr.r.pools[p]) < 8 {
+			fr.r.pools[p] = append(fr.r.pools[p], args[1])
+		}
+		return nil
+	}
 	in["(*sync.Cond).Broadcast"] = nop
 	in["(*sync.Cond).Signal"] = nop
 
